@@ -55,15 +55,15 @@ def configs(thorough):
         # every code under every prefix, one program
         ("matrix", cfg(allc, maxsigs=2 if thorough else 1), 60000 if thorough else 21000),
         # multisig / cross-chain signature lists in depth
-        ("multisig", cfg("1, 3, 5, 8, 11", pfx='"multi", "std", "cross"', maxsigs=3, forge="1, 2, 3, 4" if thorough else "1, 2, 4",
-                         aligned=True), 60000 if thorough else 15000),
+        ("multisig", cfg("1, 3, 5, 8, 11" if thorough else "3, 5, 8, 11", pfx='"multi", "std", "cross"', maxsigs=3, forge="1, 2, 3, 4" if thorough else "1, 2, 4",
+                         aligned=True), 60000 if thorough else 10000),
         # several addresses: missing / extra / duplicated / foreign programs, dedup of inputs, sorting, cross-chain pairing
         ("pairing", cfg("2, 3, 6, 7" if thorough else "2, 3, 6", pfx='"multi", "std", "cross"', maxin=2,
                         maxattr=0, maxprogs=3, forge="1, 2", maxver=0, garbage=False, aligned=True),
-         60000 if thorough else 12000),
+         60000 if thorough else 8000),
         # script attributes next to spent outputs
-        ("attr", cfg("2, 3, 6", pfx='"std", "cross"', maxin=2, maxattr=1, maxprogs=3 if thorough else 2, forge="1, 2",
-                     maxver=0, garbage=False, aligned=True), 40000 if thorough else 10000),
+        ("attr", cfg("2, 3, 6" if thorough else "2, 6", pfx='"std", "cross"', maxin=2, maxattr=1, maxprogs=3 if thorough else 2, forge="1, 2",
+                     maxver=0, garbage=False, aligned=True), 40000 if thorough else 6000),
     ]
     return res
 
